@@ -10,7 +10,7 @@ def plan(tier, seed):
         jobs.append({"id": f"C12:best B={B} k={k}", "module": "vf.opsjobs", "func": "best_job", "params": dict(B=B, k=k, L=L)})
     envs = ("tsp", "atsp", "cvrp", "sdvrp", "op", "pctsp", "pdp", "mtsp", "mtvrp", "flp", "mcp", "svrp", "sampling")
     for e in envs:
-        for B, n, k in ([(2, 4, 2), (2, 4, 3)] if tier == "quick" else [(2, 4, 2), (1, 4, 3), (3, 4, 4), (2, 4, 5), (3, 4, 2)]):
+        for B, n, k in ([(2, 4, 2), (2, 4, 3), (2, 4, 5)] if tier == "quick" else [(2, 4, 2), (1, 4, 3), (3, 4, 4), (2, 4, 5), (3, 4, 2)]):
             jobs.append({"id": f"C12:starts {e} B={B} n={n} k={k}", "module": "vf.opsjobs", "func": "starts_job", "params": dict(env_name=e, B=B, n=n, k=k)})
     from . import C16  # POMO / SymNCO regrouping of rewards and log-likelihoods is decided by the C16 identities
 
